@@ -700,4 +700,248 @@ theorem file_sound (toks : List Token) (file : File) (h : parseFile toks = some 
         · simp [File.shape?, hss, FileShape'.toOld, FileShape.erase]
       · simp at h
 
+/-! ## 8. print, then parse for the refined shapes (the round trip of `C03Decl` with explicit parentheses) -/
+
+theorem errCode_print' (s : ErrCodeShape') (q r : List Token) (fuel : Nat)
+    (hq : q.map (·.tk) = printErrCode' s) (hfuel : q.length ≤ fuel) :
+    ∃ a, errCode fuel (q ++ r) = some (a, r) ∧ a.shape? = some s.toOld.erase := by
+  obtain ⟨sn, sps, sc⟩ := s
+  cases sps with
+  | none =>
+    exact errCode_print ⟨sn, [], sc⟩ q r fuel (by simpa [printErrCode', printErrCode] using hq) hfuel
+  | some ps =>
+    simp only [printErrCode'] at hq
+    obtain ⟨cs, b1, rfl, hcs, hb⟩ := List.map_eq_append_iff.mp hq
+    obtain ⟨nt, b2, rfl, hn, hb⟩ := List.map_eq_cons_iff.mp hb
+    obtain ⟨par, b3, rfl, hpar, hb⟩ := List.map_eq_append_iff.mp hb
+    obtain ⟨semi, b5, rfl, hsemi, hb⟩ := List.map_eq_cons_iff.mp hb
+    rw [List.map_eq_nil_iff] at hb; subst hb
+    have hcm := comments_print' cs sc nt (par ++ semi :: r) hcs (by simp [hn])
+    have e : cs ++ nt :: (par ++ [semi]) ++ r = cs ++ nt :: (par ++ semi :: r) := by simp
+    rw [e]
+    obtain ⟨lp, b6, rfl, hlp, hb⟩ := List.map_eq_cons_iff.mp hpar
+    obtain ⟨pp, b7, rfl, hpp, hb⟩ := List.map_eq_append_iff.mp hb
+    obtain ⟨rp, b8, rfl, hrp, hb⟩ := List.map_eq_cons_iff.mp hb
+    rw [List.map_eq_nil_iff] at hb; subst hb
+    simp only [List.length_append, List.length_cons] at hfuel
+    have hlen := length_le_of_flatMap printParam (fun s => by have := printParam_length s; omega) ps pp hpp
+    obtain ⟨as, has, hss⟩ := errParamsL_print ps pp rp (semi :: r) fuel fuel hpp hrp (by omega) (by omega)
+    unfold errCode
+    simp only [List.cons_append, List.append_assoc, List.nil_append] at hcm ⊢
+    simp only [hcm, ident, hn, Option.bind_eq_bind, Option.bind_some, peekKw_eq hlp, if_true, List.tail_cons]
+    rw [firstThat_head' has (by simp [kw?_cons _ _ _ hrp, kw?_cons _ _ _ hsemi])]
+    simp only [kw?_cons _ _ _ hrp, kw?_cons _ _ _ hsemi, Option.bind_some, Option.pure_def]
+    exact ⟨_, rfl, by simp [ErrCode.shape?, hss, ErrCodeShape.erase, ErrCodeShape'.toOld]⟩
+
+theorem typeDecl_error_print' (fuel : Nat) (c : List String) (ts0 : List Token) (n : String) (codes : List ErrCodeShape')
+    (body rest : List Token)
+    (hb : body.map (·.tk) = Tk.id n :: Tk.kw "=" :: Tk.kw "error" :: Tk.kw "{" :: (codes.flatMap printErrCode' ++ [Tk.kw "}"]))
+    (hfuel : body.length ≤ fuel + 1) :
+    ∃ d, typeDecl fuel c ts0 (body ++ rest) = some (d, rest) ∧
+      d.shape? = some (.error n c (codes.map (fun s => s.toOld.erase))) := by
+  obtain ⟨nt, b1, rfl, hn, hb⟩ := List.map_eq_cons_iff.mp hb
+  obtain ⟨eq, b2, rfl, heq, hb⟩ := List.map_eq_cons_iff.mp hb
+  obtain ⟨k, b3, rfl, hk, hb⟩ := List.map_eq_cons_iff.mp hb
+  obtain ⟨lb, b4, rfl, hlb, hb⟩ := List.map_eq_cons_iff.mp hb
+  obtain ⟨pre, b5, rfl, hpre, hb⟩ := List.map_eq_append_iff.mp hb
+  obtain ⟨rb, b6, rfl, hrb, hb⟩ := List.map_eq_cons_iff.mp hb
+  rw [List.map_eq_nil_iff] at hb; subst hb
+  simp only [List.length_cons, List.length_append] at hfuel
+  obtain ⟨cs, hmany, hcs⟩ := many_block fuel (errCode fuel) printErrCode' ErrCode.shape? (fun s => s.toOld.erase) codes fuel
+    (fun s => by simp [printErrCode']; omega)
+    (fun s _ q r hq => startsCI_peekKw (startsCI_of s.comment s.name _ q r hq) _)
+    (fun s _ q r hq hl => errCode_print' s q r fuel hq hl)
+    pre rb rest fuel hpre hrb (by omega) (by omega)
+  have e : nt :: eq :: k :: lb :: (pre ++ [rb]) ++ rest = nt :: eq :: k :: lb :: (pre ++ rb :: rest) := by simp
+  rw [e]
+  unfold typeDecl
+  simp only [ident, hn, Option.bind_eq_bind, Option.bind_some, kw?_cons _ _ _ heq,
+    peekKw_ne hk (by decide : "error" ≠ "enum"), peekKw_ne hk (by decide : "error" ≠ "flags"),
+    peekKw_ne hk (by decide : "error" ≠ "record"), peekKw_ne hk (by decide : "error" ≠ "main"),
+    peekKw_ne hk (by decide : "error" ≠ "interface"), peekKw_eq hk,
+    Bool.false_eq_true, if_false, Bool.or_false, if_true, List.tail_cons, kw?_cons _ _ _ hlb, hmany,
+    kw?_cons _ _ _ hrb, Option.pure_def]
+  exact ⟨_, rfl, by simp [Decl.shape?, hcs]⟩
+
+def DeclFollowOK' (d : DeclShape') (rest : List Token) : Prop := DeclFollowOK d.toOld rest
+
+theorem printDeclBody'_head (d : DeclShape') : ∃ n tl, printDeclBody' d = Tk.id n :: tl := by
+  cases d with
+  | plain d => exact printDeclBody_head d
+  | error n c cs => exact ⟨_, _, rfl⟩
+
+theorem typeDecl_print' (d : DeclShape') (fuel : Nat) (ts0 body rest : List Token)
+    (hb : body.map (·.tk) = printDeclBody' d) (hfollow : DeclFollowOK' d rest) (hfuel : body.length ≤ fuel + 1) :
+    ∃ x, typeDecl fuel d.comment ts0 (body ++ rest) = some (x, rest) ∧ x.shape? = some d.toOld.erase := by
+  cases d with
+  | plain d => exact typeDecl_print d fuel ts0 body rest hb hfollow hfuel
+  | error n c cs =>
+    obtain ⟨x, hx, hxs⟩ := typeDecl_error_print' fuel c ts0 n cs body rest hb hfuel
+    exact ⟨x, hx, by simp [hxs, DeclShape'.toOld, DeclShape.erase, Function.comp_def]⟩
+
+theorem printContent'_head (s : ContentShape') (q r : List Token) (hq : q.map (·.tk) = printContent' s) :
+    StartsContent (q ++ r) := by
+  cases s with
+  | decl d =>
+    simp only [printContent', printDecl'] at hq
+    obtain ⟨cs, body, rfl, hcs, hb⟩ := List.map_eq_append_iff.mp hq
+    obtain ⟨n, tl, hd⟩ := printDeclBody'_head d
+    rw [hd] at hb
+    obtain ⟨nt, b, rfl, hn, _⟩ := List.map_eq_cons_iff.mp hb
+    rw [List.append_assoc]
+    exact startsContent_of_comments _ cs _ hcs ⟨nt, _, rfl, Or.inr (Or.inl ⟨_, hn⟩)⟩
+  | ns n d c cs' =>
+    simp only [printContent'] at hq
+    obtain ⟨cs, body, rfl, hcs, hb⟩ := List.map_eq_append_iff.mp hq
+    obtain ⟨nk, b, rfl, hnk, _⟩ := List.map_eq_cons_iff.mp hb
+    rw [List.append_assoc]
+    exact startsContent_of_comments _ cs _ hcs ⟨nk, _, rfl, Or.inr (Or.inr hnk)⟩
+
+theorem printContent'_length_pos (s : ContentShape') : 1 ≤ (printContent' s).length := by
+  cases s with
+  | decl d =>
+    obtain ⟨n, tl, hd⟩ := printDeclBody'_head d
+    simp [printContent', printDecl', hd]; omega
+  | ns n d c cs' => simp [printContent']; omega
+
+def ContentFollowOK' : ContentShape' → List Token → Prop
+  | .decl d, rest => DeclFollowOK' d rest
+  | .ns _ _ _ _, _ => True
+
+theorem ContentFollowOK'_of_simple (s : ContentShape') (rest : List Token) (h : peekKw "deriving" rest = false) :
+    ContentFollowOK' s rest := by
+  cases s with
+  | decl d =>
+    cases d with
+    | plain d => exact ContentFollowOK_of_simple (.decl d) rest h
+    | error n c cs => trivial
+  | ns _ _ _ _ => trivial
+
+theorem printContents'_follow (l : List ContentShape') (pre rest : List Token) (hp : pre.map (·.tk) = printContents' l)
+    (h : peekKw "deriving" rest = false) : peekKw "deriving" (pre ++ rest) = false := by
+  cases l with
+  | nil => simp [printContents'] at hp; subst hp; exact h
+  | cons a as =>
+    simp only [printContents'] at hp
+    obtain ⟨q, pre', rfl, hq, _⟩ := List.map_eq_append_iff.mp hp
+    rw [List.append_assoc]
+    exact (printContent'_head a q (pre' ++ rest) hq).peekKw_false _ (by decide)
+
+mutual
+theorem content_print' (s : ContentShape') (pre rest : List Token) (fuel : Nat)
+    (hp : pre.map (·.tk) = printContent' s) (hfollow : ContentFollowOK' s rest) (hfuel : pre.length ≤ fuel) :
+    ∃ a, content fuel (pre ++ rest) = some (a, rest) ∧ a.shape? = some s.toOld.erase := by
+  match s with
+  | .decl d =>
+    simp only [printContent', printDecl'] at hp
+    obtain ⟨cs, body, rfl, hcs, hb⟩ := List.map_eq_append_iff.mp hp
+    obtain ⟨n, tl, hd⟩ := printDeclBody'_head d
+    have hb' := hb
+    rw [hd] at hb'
+    obtain ⟨nt, b, rfl, hn, _⟩ := List.map_eq_cons_iff.mp hb'
+    simp only [List.length_append] at hfuel
+    cases fuel with
+    | zero => simp at hfuel
+    | succ g =>
+      have hcm := comments_print' cs d.comment nt (b ++ rest) hcs (by simp [hn])
+      obtain ⟨x, hx, hxs⟩ := typeDecl_print' d g (cs ++ nt :: (b ++ rest)) (nt :: b) rest hb hfollow (by omega)
+      have e : cs ++ nt :: b ++ rest = cs ++ nt :: (b ++ rest) := by simp
+      rw [e, content_succ, hcm]
+      simp only [peekKw_id hn, Bool.false_eq_true, if_false]
+      rw [List.cons_append] at hx
+      rw [hx]
+      exact ⟨_, rfl, by simp [Content.shape?, hxs, ContentShape.erase, ContentShape'.toOld]⟩
+  | .ns n d c l =>
+    simp only [printContent'] at hp
+    obtain ⟨cs, b1, rfl, hcs, hb⟩ := List.map_eq_append_iff.mp hp
+    obtain ⟨nk, b2, rfl, hnk, hb⟩ := List.map_eq_cons_iff.mp hb
+    obtain ⟨nm, b3, rfl, hnm, hb⟩ := List.map_eq_cons_iff.mp hb
+    obtain ⟨lb, b4, rfl, hlb, hb⟩ := List.map_eq_cons_iff.mp hb
+    obtain ⟨cpre, b5, rfl, hcpre, hb⟩ := List.map_eq_append_iff.mp hb
+    obtain ⟨rb, b6, rfl, hrb, hb⟩ := List.map_eq_cons_iff.mp hb
+    rw [List.map_eq_nil_iff] at hb; subst hb
+    simp only [List.length_append, List.length_cons] at hfuel
+    cases fuel with
+    | zero => omega
+    | succ g =>
+      have hcm := comments_print' cs c nk (nm :: lb :: (cpre ++ rb :: rest)) hcs (by simp [hnk])
+      obtain ⟨as, has, hss⟩ := contents_print' l cpre (rb :: rest) (peekKw "}") g g g hcpre (peekKw_eq hrb)
+        (fun ts h => h.peekKw_false _ (by decide)) (peekKw_ne hrb (by decide)) (by omega) (by omega)
+      have e : cs ++ nk :: nm :: lb :: (cpre ++ [rb]) ++ rest = cs ++ nk :: nm :: lb :: (cpre ++ rb :: rest) := by simp
+      rw [e, content_succ, hcm]
+      simp only [peekKw_eq hnk, if_true, List.tail_cons, nsIdent_name nm _ n d hnm, kw?_cons _ _ _ hlb, has,
+        kw?_cons _ _ _ hrb]
+      exact ⟨_, rfl, by simp [Content.shape?, hss, ContentShape.erase, ContentShape'.toOld]⟩
+theorem contents_print' (l : List ContentShape') (pre rest : List Token) (stop : List Token → Bool) (fuel' fuel n : Nat)
+    (hp : pre.map (·.tk) = printContents' l) (hstop : stop rest = true)
+    (hstart : ∀ ts, StartsContent ts → stop ts = false) (hfollow : peekKw "deriving" rest = false)
+    (hfuel : pre.length ≤ fuel) (hn : pre.length < n) :
+    ∃ as, many fuel' stop (content fuel) n (pre ++ rest) = some (as, rest) ∧
+      contentsShape? as = some (eraseContents (toOldContents l)) := by
+  match l with
+  | [] =>
+    simp [printContents'] at hp; subst hp
+    cases n with
+    | zero => simp at hn
+    | succ k => exact ⟨[], by simp [many, hstop], rfl⟩
+  | a :: as =>
+    simp only [printContents'] at hp
+    obtain ⟨q, pre', rfl, hq, hpre'⟩ := List.map_eq_append_iff.mp hp
+    have hpos := printContent'_length_pos a
+    rw [← hq, List.length_map] at hpos
+    simp only [List.length_append] at hfuel hn
+    cases n with
+    | zero => omega
+    | succ k =>
+      have hfo := printContents'_follow as pre' rest hpre' hfollow
+      obtain ⟨x, hx, hxs⟩ := content_print' a q (pre' ++ rest) fuel hq (ContentFollowOK'_of_simple _ _ hfo) (by omega)
+      obtain ⟨xs, hxs', hxss⟩ := contents_print' as pre' rest stop fuel' fuel k hpre' hstop hstart hfollow
+        (by omega) (by omega)
+      have hst := hstart _ (printContent'_head a q (pre' ++ rest) hq)
+      rw [List.append_assoc]
+      refine ⟨x :: xs, ?_, by simp [contentsShape?, hxs, hxss, eraseContents, toOldContents]⟩
+      simp [many, hst, hx, hxs']
+end
+
+theorem printContents'_nil_or_starts (l : List ContentShape') (pre : List Token) (hp : pre.map (·.tk) = printContents' l) :
+    pre = [] ∨ StartsContent pre := by
+  cases l with
+  | nil => simp [printContents'] at hp; exact Or.inl hp
+  | cons a as =>
+    simp only [printContents'] at hp
+    obtain ⟨q, pre', rfl, hq, _⟩ := List.map_eq_append_iff.mp hp
+    exact Or.inr (printContent'_head a q pre' hq)
+
+/-- **round trip for refined file shapes**: every printing — with `name ( ) ;` error codes too — is accepted, and the
+    result has the printed shape (up to what the AST does not record) -/
+theorem file_roundtrip' (f : FileShape') (toks : List Token) (h : toks.map (·.tk) = printFile' f) :
+    ∃ file, parseFile toks = some file ∧ file.shape? = some f.toOld.erase := by
+  obtain ⟨lpre, cpre, rfl, hl, hc⟩ := List.map_eq_append_iff.mp h
+  have hlen := length_le_of_flatMap printLoad (fun s => by simp [printLoad]) f.loads lpre hl
+  have hstop : stopLoads cpre = true := by
+    rcases printContents'_nil_or_starts _ cpre hc with rfl | hs
+    · rfl
+    · simp [stopLoads, hs.peekKw_false "@import" (by decide), hs.peekKw_false "@extern" (by decide)]
+  obtain ⟨-, ls, hls, hlss⟩ := many_print (8 * (lpre ++ cpre).length + 16) stopLoads load printLoad
+    (fun a => some a.shape) id (fun _ => True) f.loads
+    (by
+      intro s _ q r hq _
+      obtain ⟨a, ha, has⟩ := load_print s q r hq
+      refine ⟨?_, trivial, a, ha, by simp [has]⟩
+      simp only [printLoad] at hq
+      obtain ⟨x, b1, rfl, hx, _⟩ := List.map_eq_cons_iff.mp hq
+      cases hi : s.isImport <;> simp [hi] at hx <;> simp [stopLoads, peekKw, hx])
+    lpre cpre (8 * (lpre ++ cpre).length + 16) hl hstop trivial (by simp only [List.length_append]; omega)
+  obtain ⟨cs, hcs, hcss⟩ := contents_print' f.contents cpre [] (fun t => t.isEmpty) (8 * (lpre ++ cpre).length + 16)
+    (8 * (lpre ++ cpre).length + 16) (8 * (lpre ++ cpre).length + 16) hc rfl
+    (by rintro ts ⟨x, xs, rfl, _⟩; rfl) rfl
+    (by simp only [List.length_append]; omega) (by simp only [List.length_append]; omega)
+  rw [List.append_nil] at hcs
+  rw [parseFile_eq, hls]
+  simp only [hcs, List.isEmpty_nil, if_true]
+  refine ⟨_, rfl, ?_⟩
+  rw [mapOpt_total] at hlss
+  simp at hlss
+  simp [File.shape?, hcss, FileShape.erase, FileShape'.toOld, hlss]
+
 end Pydjinni.Front
